@@ -88,7 +88,7 @@ def run(ck):
         ck.cov["distinct_nontrivial"] = nt
         ck.cov["exhaustive"] = True
         ck.cov["rule"] = ("(1) every byte-class string up to MaxLen over 12 classes (TLC BFS of ShPos) placed in a quoted, comment and "
-                          "blank context before a token; (2) every ShSyntax derivation x 6 layouts x variants: all position fields of all "
+                          "blank context before a token; (2) every ShSyntax derivation x every layout of the spec (9) x variants: all position fields of all "
                           "nodes checked against the ShPos token table and the line/column contract; non-trivial = class string with a "
                           "line ender or multi-byte class, or program with a non-default choice that parsed")
         ck.assumptions += ["token table transcribed from the repository's sanityChecker contract (spec/ShPos.tla)",
